@@ -85,11 +85,19 @@ def one(M, rec, rng, g, desc, pars, st):
             ctx = {"desc": desc, "pars": pars, "sym_type": st, "compact": compact, "more_out": more_out, "opts": opts,
                    "declared_parameters": list(sym.parameters), "parameter_values": pvals, "variant": vname}
             try:
-                Fs = sym.compile(compact, more_out)
                 Fn = num.compile(compact, more_out)
             except Exception as e:
                 rec.count("compile_failed")
                 rec.seen("failed", repr(e)[:100])
+                continue
+            try:
+                Fs = sym.compile(compact, more_out)
+            except Exception as e:
+                kinds = sorted(set(k_[1] for k_ in keys if k_[0] == "#")) or ["element parameters"]
+                rec.violation(
+                    f"{PROP}:compiling with declared symbolic parameters raised {type(e).__name__} although the same network compiles "
+                    f"with plain numbers (more_out={more_out}; symbolic model parameters: {','.join(kinds)})",
+                    dict(ctx, exception=repr(e)[:300]))
                 continue
             # trailing parameter arguments in declared order
             rec.count("layout_checks")
